@@ -40,6 +40,7 @@ def new_shape(sid, path=None):
         "path": path,
         "deact": False,
         "sev": None,
+        "msgs": [],
         "targets": {"nodes": [], "classes": [], "subjects_of": [], "objects_of": []},
         "types": [],
         "comps": [],
@@ -76,6 +77,8 @@ def gen_shapes(rng, nodes, lits, n_shapes=6, max_depth_refs=True, recursive=Fals
         s["deact"] = rng.random() < p_deact
         if sev:
             s["sev"] = rng.choice(SEVERITIES)
+        if rng.random() < 0.3:
+            s["msgs"] = [Literal("message of %s" % i)] + ([Literal("Nachricht", lang="de")] if rng.random() < 0.4 else [])
         shapes.append(s)
     # targets on some named shapes
     iri_nodes = [n for n in nodes if isinstance(n, URIRef)]
@@ -149,6 +152,8 @@ def shapes_to_rdf(shapes, explicit_types=True):
             g.add((n, SH.deactivated, Literal(True)))
         if s["sev"] is not None:
             g.add((n, SH.severity, s["sev"]))
+        for m in s.get("msgs", []):
+            g.add((n, SH.message, m))
         t = s["targets"]
         for x in t["nodes"]:
             g.add((n, SH.targetNode, x))
@@ -239,7 +244,7 @@ def shape_to_coq(I, s, W=None, value_terms=()):
     t = s["targets"]
     sev = s["sev"] if s["sev"] is not None else SH.Violation
     return (
-        "{| sid := %s; spath := %s; deact := %s; ssev := %s; "
+        "{| sid := %s; spath := %s; deact := %s; ssev := %s; smsgs := %s; "
         "stargets := {| t_nodes := %s; t_classes := %s; t_implicit := false; t_subjects_of := %s; t_objects_of := %s |}; "
         "scomps := [%s] |}"
         % (
@@ -247,6 +252,7 @@ def shape_to_coq(I, s, W=None, value_terms=()):
             enc.coq_opt(enc.path_to_coq(I, s["path"])) if s["path"] is not None else "None",
             enc.coq_bool(s["deact"]),
             I.term(sev),
+            I.terms(s.get("msgs", [])),
             I.terms(t["nodes"]),
             I.terms(t["classes"]),
             I.terms(t["subjects_of"]),
@@ -291,7 +297,8 @@ def parse_result(rg, r):
     paths = list(rg.objects(r, SH.resultPath))
     # an IRI path is compared as such; a complex path (copied blank-node structure) only by its presence
     path = None if not paths else (paths[0] if isinstance(paths[0], URIRef) else "complex")
-    return (focus, vals[0] if vals else None, comp, src, sev, details, path, len(vals), len(paths))
+    msgs = sorted(rg.objects(r, SH.resultMessage), key=lambda m: m.n3())
+    return (focus, vals[0] if vals else None, comp, src, sev, details, path, len(vals), len(paths), msgs)
 
 
 def parse_report(rg):
@@ -300,16 +307,19 @@ def parse_report(rg):
     return [parse_result(rg, r) for r in rg.objects(reports[0], SH.result)]
 
 
-def result_to_coq(I, r):
+def result_to_coq(I, r, declared=None):
     f, v, comp, src, sev, details, path = r[:7]
-    return "VR (%s) %s %s %d (%s) (%s) [%s]" % (
+    # only declared sh:message values are compared; auto-generated default messages are dropped
+    msgs = r[9] if (declared and declared.get(src)) else []
+    return "VR (%s) %s %s %d (%s) (%s) %s [%s]" % (
         I.term(f),
         enc.coq_opt(I.term(v)) if v is not None else "None",
         "None" if path is None else ("(Some (BN 0))" if path == "complex" else enc.coq_opt(I.term(path))),
         I.iri_num(comp),
         I.term(src),
         I.term(sev),
-        "; ".join(result_to_coq(I, d) for d in details),
+        I.terms(msgs),
+        "; ".join(result_to_coq(I, d, declared) for d in details),
     )
 
 
@@ -325,12 +335,13 @@ def run_validate(data_graph, shapes_graph, **opts):
     return ("ok", bool(conforms), parse_report(rg), text, rg)
 
 
-def observed_to_coq(I, obs):
+def observed_to_coq(I, obs, shapes=None):
+    declared = {s["id"]: bool(s.get("msgs")) for s in (shapes or [])}
     if obs[0] == "err":
         if obs[1].startswith("RAW:") or obs[1] in ("ValFailure", "RuleLoad"):
             return None
         return "Err %s" % obs[1]
-    return "Ok (%s, [%s])" % (enc.coq_bool(obs[1]), ";\n    ".join(result_to_coq(I, r) for r in obs[2]))
+    return "Ok (%s, [%s])" % (enc.coq_bool(obs[1]), ";\n    ".join(result_to_coq(I, r, declared) for r in obs[2]))
 
 
 def result_key(r):
